@@ -262,6 +262,16 @@ func lockEvents(f *ast.File, cfg lockCfg, fd *ast.FuncDecl, depth int) []string 
 				return false
 			}
 		case *ast.CallExpr:
+			// call of a plain function of the same file: inline its events
+			if id, ok := x.Fun.(*ast.Ident); ok && depth < 2 {
+				if callee := findFunc(f, "", id.Name); callee != nil && callee.Body != nil && callee != fd {
+					for _, a := range x.Args {
+						ast.Inspect(a, visit)
+					}
+					evs = append(evs, lockEvents(f, cfg, callee, depth+1)...)
+					return false
+				}
+			}
 			if se, ok := x.Fun.(*ast.SelectorExpr); ok {
 				base := lastName(src(se.X))
 				if cfg.mutexes[base] {
